@@ -41,14 +41,14 @@ def with_counters(spec):
     return s2
 
 
-def monitor(ctx, spec, M, kind, T, seed, safe, rows, where, reused=False):
+def monitor(ctx, spec, M, kind, T, seed, safe, rows, where, reused=False, dividing=None):
     """the property stated on implementation output."""
     sl = M.get_species_list()
     # the stoichiometries the trajectory is held against come from the reaction definition, not from the model object
     U, D = spec_matrices(spec, sl)
     S = U + D
     x0 = np.array([float(spec["ic"].get(s_, 0)) for s_ in sl])
-    rep = {"spec": spec, "kind": kind, "grid": [float(t) for t in T], "seed": seed, "safe": safe, "model_reused": reused}
+    rep = {"spec": spec, "kind": kind, "grid": [float(t) for t in T], "seed": seed, "safe": safe, "model_reused": reused, "dividing": dividing}
     if np.any(rows != np.round(rows)):
         ctx.violation("integrality/" + kind, "a reported count is not an integer", dict(rep, rows=rows.tolist()[:5]))
         return
@@ -116,12 +116,20 @@ def safe_complement(ctx, spec, T, seed, kind="ssa"):
         prev = rows[i]
 
 
-def one(ctx, spec, kind, T, seeds, safe, M=None):
+def one(ctx, spec, kind, T, seeds, safe, M=None, dividing=None):
+    """dividing: (cycle, division volume) of a StochasticTimeThresholdVolume - the run ends when the cell divides."""
     reused = M is not None
-    ctx.begin_case({"spec": spec, "kind": kind, "grid": [float(t) for t in T], "seeds": seeds, "safe": safe, "model_reused": M is not None})
+    ctx.begin_case({"spec": spec, "kind": kind, "grid": [float(t) for t in T], "seeds": seeds, "safe": safe, "model_reused": M is not None, "dividing": dividing})
     M = build_model(spec) if M is None else M
     dt = float(T[1] - T[0])
-    jobs = [sim_job(M, kind, T, s, dt, safe=safe, fuel=simcorr.FUEL, spec=spec) for s in seeds]
+    vj, vfac = None, None
+    if dividing is not None:
+        from props import C11
+        vargs = {"cycle": dividing[0], "avg": dividing[1], "noise": 0.0}
+        vj = C11.volmodel_json("stt", M, vargs)
+        x0_ = np.array(M.get_species_array(), dtype=float)
+        vfac = lambda M_: C11.make_volume("stt", M_, vargs, 1.0, x0_)
+    jobs = [sim_job(M, kind, T, s, dt, safe=safe, fuel=simcorr.FUEL, spec=spec, volmodel=vj) for s in seeds]
     ans = driver_batch(jobs)
     if any(a.get("status") == "out-of-fuel" for a in ans):
         ctx.count("discarded_unbounded_network")
@@ -131,15 +139,23 @@ def one(ctx, spec, kind, T, seeds, safe, M=None):
                                                  "difference": str([a.get("status", a.get("error")) for a in ans])})
         return
     for s, a in zip(seeds, ans):
-        r = simcorr.run_real(M, kind, T, s, dt, safe=safe)
+        r = simcorr.run_real(M, kind, T, s, dt, safe=safe, volume_factory=vfac)
         ctx.evaluated()
         d = simcorr.compare(r, a, kind)
+        if dividing is not None:
+            ctx.count("dividing_cell_runs")
+            if len(r["rows"]) < len(T):
+                ctx.count("dividing_cell_runs_truncated")
         if d is not None:
-            ctx.broke("corr_C06_trajectory_bit_exact_" + kind, {"spec": spec, "kind": kind, "grid": [float(t) for t in T], "seed": s, "safe": safe, "model_reused": reused, "difference": d})
-        monitor(ctx, spec, M, kind, T, s, safe, r["rows"], kind, reused=reused)
+            ctx.broke("corr_C06_trajectory_bit_exact_" + kind, {"spec": spec, "kind": kind, "grid": [float(t) for t in T], "seed": s, "safe": safe, "model_reused": reused, "dividing": dividing, "difference": d})
+        monitor(ctx, spec, M, kind, T, s, safe, r["rows"], kind, reused=reused, dividing=dividing)
         if np.any(np.diff(r["rows"], axis=0) != 0):
             ctx.nontriv((kind, safe, str(sorted((x["prop"]["type"], tuple(x["reactants"])) for x in spec["reactions"])), s % 5))
     ctx.count("runs:" + kind + ("/safe" if safe else ""), len(seeds))
+
+
+def dspec_for(rng, spec):
+    return add_delays(rng, spec)
 
 
 def add_delays(rng, spec):
@@ -191,6 +207,11 @@ def run(ctx):
         one(ctx, spec, "ssa", T, seeds, safe)
         one(ctx, spec, "ssa", T, seeds, True)
         one(ctx, spec, "volume", T, seeds, safe)
+        if i % 3 == 1:
+            # a growing cell that divides about half way: every reported row up to the division is a feasible state
+            half = float(T[len(T) // 2]) if T[len(T) // 2] > 0 else 1.0
+            one(ctx, spec, "volume", T, seeds[:2], safe, dividing=(half, 2.0))
+            one(ctx, dspec_for(rng, spec), "delayvolume", T, seeds[:2], safe, dividing=(half, 2.0))
         dspec = add_delays(rng, spec)
         one(ctx, dspec, "delay", T, seeds, safe)
         if i % 3 == 0:
@@ -214,6 +235,8 @@ def replay(ctx, obj):
         spec["species"] = [s for s in spec["species"] if not s.startswith("Cnt")]
         spec["reactions"] = [dict(r, products=[p for p in r["products"] if not p.startswith("Cnt")]) for r in spec["reactions"]]
         safe_complement(ctx, spec, np.array(rep["grid"]), rep["seed"], kind=rep.get("kind", "ssa"))
+    elif rep.get("dividing"):
+        one(ctx, rep["spec"], rep.get("kind", "volume"), np.array(rep["grid"]), [rep["seed"]], rep.get("safe", False), dividing=tuple(rep["dividing"]))
     elif rep.get("model_reused"):
         Md = build_model(rep["spec"])
         for kind in ("volume", "ssa", "delayvolume", "volume", "delay"):
